@@ -4,4 +4,5 @@ P=$(realpath $1); shift
 [ -z "$(git -C /repo status --porcelain --untracked-files=no)" ] || { echo "/repo not clean"; exit 2; }
 git -C /repo apply $P || exit 2
 trap 'git -C /repo checkout -- .' EXIT
+export PHYST_SKIP_TIE=1
 for prop in "$@"; do (cd /verif && ./check $prop --tier quick --no-gate 2>&1 | grep -E "VIOLATION|KNOWN|tier=" | cut -c1-300); done
